@@ -99,7 +99,7 @@ func cmdVerify(args []string) int {
 	pkgSet := map[string]bool{}
 	for _, k := range cs.SortedKeys() {
 		c := cs.ByKey[k]
-		if c.Extern || !strings.Contains(k, *match) {
+		if c.Extern || c.Inline || !strings.Contains(k, *match) {
 			continue
 		}
 		sel = append(sel, k)
